@@ -114,7 +114,9 @@ Definition step (s : st) (r : list Z) : option st :=
            C08_idle_window_lower, checked on the traces by Sys/MonLifecycle.v.) *)
         let timed_ok :=
           negb (fld r 5 =? 6) ||
-          ((0 <=? pf (lastp c) 19) && (pf (lastp c) 19 <=? t)) in
+          ((0 <=? pf (lastp c) 19) && (pf (lastp c) 19 <=? t)
+           (* and an idle timeout is negotiated at all (p13 = -1: none) *)
+           && (0 <=? pf (lastp c) 13)) in
         if timed_ok then
           Some (setc s k {| lost := true; drained := drained c; closed_local := closed_local c;
                             entry := entry c; expect_tx := expect_tx c;
